@@ -573,6 +573,7 @@ class Emitter:
         self.state, self.ret = state, ret
         self.locals = set(locals_)
         self.on_break = self.on_continue = self.on_end = None   # Lean terms for loop bodies
+        self.on_while = None                                    # callback (stmt, rest) -> Lean term
 
     # -------------------------------------------------------------- expressions
     def subst(self, tmpl, b, ctx="v"):
@@ -627,6 +628,12 @@ class Emitter:
             return f"({self.tx(e[1])} % {2 ** int(e[2][1:])})"
         if k == "tuple":
             return "(" + ", ".join(self.tx(x) for x in e[1]) + ")"
+        if k == "array":
+            return "[" + ", ".join(self.tx(x) for x in e[1]) + "]"
+        if k == "repeat":
+            return f"(List.replicate {self.tx(e[2])} {self.tx(e[1])})"
+        if k == "closure":
+            raise XlateError("closure outside a template")
         if k in ("if", "iflet", "match", "block"):
             return "(" + self.blk([("expr", e, False)], pure=True) + ")"
         raise XlateError(f"untranslatable expression {render(e)[:80]}")
@@ -728,7 +735,14 @@ class Emitter:
                     v = self.subst(val, b)
                     pre = f"let __v := {v}; {self.subst(st, b)} "
                     return pre + self._bind(p, "__v", els, rest, pure)
+            if init[0] == "try":
+                lp = self.pat(p)
+                return f"(match {self.tx(init[1])} with | Except.ok {lp} => {self.blk(rest, pure)} | Except.error __e => Except.error __e)"
             return self._bind(p, self.tx(init), els, rest, pure)
+        if k == "while":
+            if self.on_while is None:
+                raise XlateError("while loop without a loop function")
+            return self.on_while(s, rest)
         if k == "assign":
             _, lhs, op, rhs = s
             for pat, fieldname in self.assigns:
@@ -746,8 +760,13 @@ class Emitter:
                     elif op != "=":
                         raise XlateError(f"assignment operator {op}")
                     return f"let {self.state} := {{ {self.state} with {fieldname} := {r} }}; {self.blk(rest, pure)}"
-            if lhs[0] == "path" and lhs[1] in self.locals and op == "=":
-                return f"let {lhs[1]} := {self.tx(rhs)}; {self.blk(rest, pure)}"
+            if lhs[0] == "path" and lhs[1] in self.locals and op in ("=", "+=", "-="):
+                r = self.tx(rhs)
+                if op != "=":
+                    r = f"({lhs[1]} {op[0]} {r})"
+                return f"let {lhs[1]} := {r}; {self.blk(rest, pure)}"
+            if lhs[0] == "index" and lhs[1][0] == "path" and lhs[1][1] in self.locals and op == "=":
+                return f"let {lhs[1][1]} := ({lhs[1][1]}.set {self.tx(lhs[2])} {self.tx(rhs)}); {self.blk(rest, pure)}"
             raise XlateError(f"assignment target {render(lhs)}")
         raise XlateError(f"statement kind {k}")
 
